@@ -102,6 +102,20 @@ Definition format_line (U : N -> bool) (prio : N) (target name on off : list N) 
   | _ => 32 :: join [32] (map (escape U) extra)
   end.
 
+(* safe_format(template, *args, **kwargs): every positional and keyword argument goes through _escape; str.format (an
+   oracle [fmt], whatever its result type) only ever receives the template and escaped text; kwargs = (name, value) pairs *)
+Definition safe_format {R} (U : N -> bool) (fmt : list N -> list (list N) -> list (list N * list N) -> R)
+    (template : list N) (args : list arg) (kwargs : list (list N * arg)) : R :=
+  fmt template (map (escape U) args) (map (fun kv => (fst kv, escape U (snd kv))) kwargs).
+
+(* Tag.get_colors: the attribute of terminal.colors chosen for a priority letter (None: KeyError) *)
+Definition prio_colour (p : N) : option (list N) :=
+  if N.eqb p 80 then Some [103;114;101;101;110]            (* P green *)
+  else if N.eqb p 73 then Some [99;121;97;110]             (* I cyan *)
+  else if N.eqb p 87 then Some [121;101;108;108;111;119]   (* W yellow *)
+  else if N.eqb p 69 then Some [114;101;100]               (* E red *)
+  else None.
+
 (* ------------------------------------------------------------------ *)
 (* Provenance of text that is emitted verbatim (tags.safestr values and safe_format templates);
    the terms are generated from the python ast by tools/gen/gen_callsites.py *)
